@@ -1512,7 +1512,30 @@ def gen_builder_history(rng, handles):
     return ops
 
 
+# grammars whose TEXT takes seconds to parse when memoization is off (nested groups, wide choices: the grammar of grammars
+# backtracks): a compile with memoization=False would cost 2-15 s (x5 under the line tracer) for no additional reach
+SLOW_NOMEMO = {"clo_n", "opt_n", "wide", "wide_b", "manypat"}
+
+
+def _tame(ops):
+    for op in ops:
+        if op.get("op") in ("compile", "parse", "src", "load", "pymodel") and op.get("g") in SLOW_NOMEMO:
+            for key in ("settings", "cfg"):
+                if isinstance(op.get(key), dict) and op[key].get("memoization") is False:
+                    op[key] = {k: v for k, v in op[key].items() if k != "memoization"}
+    return ops
+
+
 def gen_spec(seed: int, mode: str | None = None) -> dict:
+    spec = _gen_spec(seed, mode)
+    _tame(spec.get("ops", []))
+    _tame(spec.get("prefix", []))
+    for th in spec.get("threads", []):
+        _tame(th)
+    return spec
+
+
+def _gen_spec(seed: int, mode: str | None = None) -> dict:
     rng = random.Random(derive(seed, "spec"))
     bug = random.Random(derive(seed, "buggify"))
     if mode is None:
@@ -1546,9 +1569,13 @@ def gen_spec(seed: int, mode: str | None = None) -> dict:
     # shared model(s), compiled in the prefix
     for _ in range(rng.choice([1, 1, 2])):
         g = rng.choice(["typed", "typed_c", "ref", "choice", "kw", "params", "typed_b", "const", "over", "lrec"])
+        if rng.random() < 0.3:
+            # grammars whose nodes work things out lazily on first use (first sets and expected-token lists of nested and
+            # wide choices, comment patterns, keyword tables): two threads may be the first at the same time
+            g = rng.choice(["clo_n", "opt_n", "wide", "wide_b", "bt", "nums", "cmt_a", "kw_c", "typed_tok", "cut", "lrec_b"])
         op = {"op": "compile", "g": g, "name": rng.choice(NAMES), "asmodel": rng.random() < 0.6, "sem": "none", "settings": rng.choice([{}, {}, {"parseinfo": True}])}
         if not op["asmodel"] and rng.random() < 0.4:
-            op["sem"] = rng.choice(["id", "tag", "num", "eq", "fa", "fb", "fc"])  # one semantics object shared by all threads through the model
+            op["sem"] = rng.choice(["id", "tag", "num", "eq", "fa", "fb", "fc", "ord"])  # one semantics object shared by all threads through the model
         _HCTR[0] += 1
         h = f"m{_HCTR[0]}"
         op["out"] = h
